@@ -26,6 +26,15 @@ pub struct Point {
     pub wants_class: String,
 }
 
+#[derive(Clone, Debug)]
+struct Waiter {
+    id: usize,
+    name: String,
+    held: Vec<usize>,
+    wants: usize,
+    go: bool,
+}
+
 #[derive(Default)]
 struct ThreadState {
     held: Vec<usize>,
@@ -40,9 +49,11 @@ pub struct LockRec {
     segments: Mutex<HashMap<String, HashSet<Vec<(char, usize)>>>>,
     states: Mutex<HashMap<String, ThreadState>>,
     points: Mutex<Vec<Point>>,
-    arrived: Mutex<Vec<Option<(String, Vec<usize>, usize)>>>,
+    arrived: Mutex<Vec<Vec<Waiter>>>,
+    next_waiter: std::sync::atomic::AtomicUsize,
     released: AtomicBool,
     pub rendezvous: Mutex<Vec<Value>>,
+    pub arrivals: Mutex<Vec<Value>>,
     overflow: AtomicBool,
 }
 
@@ -168,52 +179,87 @@ fn steer(r: &LockRec, name: &str, held: &[usize], wants: usize) {
     }
     let Some(k) = mine else { return };
     let n = points.len();
-    {
+    // Several threads may wait at the same point (e.g. every session thread that starts a child); a group is released as
+    // soon as one thread per point is present such that what the thread at point j requests is held by the thread at j+1.
+    let my_id = {
         let mut a = r.arrived.lock().unwrap();
         if a.len() != n {
-            a.resize(n, None);
+            a.resize(n, Vec::new());
         }
-        if a[k].is_some() || a.iter().flatten().any(|x| x.0 == name) {
+        if a.iter().flatten().any(|w| w.name == name) {
             return;
         }
-        // the plan is a cycle: what point j requests must be held by the thread at point j+1
-        let me = (name.to_string(), held.to_vec(), wants);
-        let next = (k + 1) % n;
-        let prev = (k + n - 1) % n;
-        if let Some(nx) = &a[next] {
-            if !nx.1.contains(&me.2) {
-                return;
+        let id = r.next_waiter.fetch_add(1, Ordering::Relaxed);
+        r.arrivals.lock().unwrap().push(json!([k, name, held, wants]));
+        a[k].push(Waiter { id, name: name.to_string(), held: held.to_vec(), wants, go: false });
+        // look for a complete consistent group containing me
+        let mut pick: Vec<usize> = vec![usize::MAX; n];
+        fn search(a: &[Vec<Waiter>], j: usize, n: usize, k: usize, my_id: usize, pick: &mut Vec<usize>) -> bool {
+            if j == n {
+                // cycle closed: last wants must be held by first
+                let last = &a[n - 1][pick[n - 1]];
+                let first = &a[0][pick[0]];
+                return first.held.contains(&last.wants);
+            }
+            for (idx, w) in a[j].iter().enumerate() {
+                if w.go || (j == k && w.id != my_id) {
+                    continue;
+                }
+                if j > 0 {
+                    let prev = &a[j - 1][pick[j - 1]];
+                    if !w.held.contains(&prev.wants) {
+                        continue;
+                    }
+                }
+                pick[j] = idx;
+                if search(a, j + 1, n, k, my_id, pick) {
+                    return true;
+                }
+            }
+            false
+        }
+        if search(&a, 0, n, k, id, &mut pick) {
+            for j in 0..n {
+                a[j][pick[j]].go = true;
             }
         }
-        if let Some(pv) = &a[prev] {
-            if !me.1.contains(&pv.2) {
-                return;
-            }
-        }
-        a[k] = Some(me);
-    }
+        id
+    };
     let t0 = Instant::now();
     let mut met = false;
-    while t0.elapsed() < Duration::from_millis(1500) {
-        if r.arrived.lock().unwrap().iter().all(|x| x.is_some()) {
-            met = true;
-            break;
+    while t0.elapsed() < Duration::from_millis(40) {
+        {
+            let a = r.arrived.lock().unwrap();
+            if a.iter().flatten().any(|w| w.id == my_id && w.go) {
+                met = true;
+                break;
+            }
         }
         if r.released.load(Ordering::Relaxed) {
             break;
         }
         std::thread::sleep(Duration::from_micros(200));
     }
+    {
+        let mut a = r.arrived.lock().unwrap();
+        // a released group stays recorded (one-shot); a waiter that gives up leaves
+        if !met {
+            if let Some(list) = a.get_mut(k) {
+                if let Some(w) = list.iter().find(|w| w.id == my_id) {
+                    if w.go {
+                        met = true;
+                    }
+                }
+                if !met {
+                    list.retain(|w| w.id != my_id);
+                }
+            }
+        }
+    }
     if met {
         // every participant holds its first lock and is about to request the second one
         r.rendezvous.lock().unwrap().push(json!({"point": k, "thread": name, "held": held, "wants": wants}));
         std::thread::sleep(Duration::from_millis(5));
-    } else {
-        // give up: free the slot so that a later arrival can still meet the others
-        let mut a = r.arrived.lock().unwrap();
-        if a.len() > k && !a.iter().all(|x| x.is_some()) {
-            a[k] = None;
-        }
     }
 }
 
@@ -223,7 +269,8 @@ pub fn begin(points: Vec<Point>) {
     r.segments.lock().unwrap().clear();
     r.states.lock().unwrap().clear();
     r.rendezvous.lock().unwrap().clear();
-    *r.arrived.lock().unwrap() = vec![None; points.len()];
+    r.arrivals.lock().unwrap().clear();
+    *r.arrived.lock().unwrap() = vec![Vec::new(); points.len()];
     *r.points.lock().unwrap() = points;
     r.released.store(false, Ordering::Relaxed);
     r.overflow.store(false, Ordering::Relaxed);
@@ -255,6 +302,6 @@ pub fn end() -> Value {
         .filter(|(_, s)| s.wants.is_some())
         .map(|(t, s)| json!({"thread": t, "held": s.held, "wants": s.wants}))
         .collect();
-    json!({"classes": classes, "segments": segs, "waiting": waiting, "rendezvous": *r.rendezvous.lock().unwrap(),
+    json!({"classes": classes, "segments": segs, "waiting": waiting, "rendezvous": *r.rendezvous.lock().unwrap(), "arrivals": *r.arrivals.lock().unwrap(),
            "overflow": r.overflow.load(Ordering::Relaxed)})
 }
